@@ -288,15 +288,26 @@ func moduleMap(client *Client) map[string]interface{} {
 }
 
 // denotes reports whether err, as it came back from the RPC layer, stands for target. JSON-RPC carries
-// only the text of an error, so the text has to be the target's own or end in ": <target's text>", which
-// is what fmt.Errorf("...: %w", target) produces on the server side. A substring test is not enough:
-// "context deadline exceeded" is not da.ErrContextDeadline ("context deadline").
+// only the text of an error, so the target's text has to occur in it as a whole link of the ": "-separated
+// wrapping chain: alone, last ("...: %w"), first ("%w: ...") or in the middle. A plain substring test is not
+// enough: "context deadline exceeded" is not da.ErrContextDeadline ("context deadline").
 func denotes(err, target error) bool {
 	if errors.Is(err, target) {
 		return true
 	}
 	msg, want := err.Error(), target.Error()
-	return msg == want || strings.HasSuffix(msg, ": "+want)
+	for from := 0; from <= len(msg)-len(want); {
+		i := strings.Index(msg[from:], want)
+		if i < 0 {
+			return false
+		}
+		start, end := from+i, from+i+len(want)
+		if (start == 0 || strings.HasSuffix(msg[:start], ": ")) && (end == len(msg) || strings.HasPrefix(msg[end:], ": ")) {
+			return true
+		}
+		from = start + 1
+	}
+	return false
 }
 
 // remoteError keeps the message received over the wire and gives it back the identity of the
